@@ -47,6 +47,9 @@ const HEADER: &str = "#![allow(warnings)]\nuse crate::rt;\nuse ::core::marker::P
 pub struct App { pub name: String }\npub struct Conf { pub name: String }\n\
 fn out<F: Future>(_: &F) -> PhantomData<F::Output> { PhantomData }\nfn is_send<T: Send>(_: &T) {}\n";
 
+/// an argument type that only an `async fn` may write like this: the lifetime inside the `impl Trait` is anonymous
+const ANON_ITER: &str = "impl Iterator<Item = &str> + Send";
+
 struct Spec {
     arg_tys: Vec<&'static str>,
     kind: Kind,
@@ -132,6 +135,7 @@ impl Spec {
                     "i32" => format!("{}i32", 3 + i),
                     "u8" => format!("{}u8", 3 + i),
                     "bool" => "true".to_string(),
+                    ty if ty.starts_with("impl Iterator") => "\"a b\".split(' ')".to_string(),
                     _ => format!("String::from(\"v{i}\")"),
                 }
             })
@@ -174,7 +178,12 @@ fn build(spec: &Spec, negative: Option<&str>) -> (String, String) {
         g.push(format!("D: {trait_path}{targs} + Sync{recv_bound_extra}"));
         let recv = if spec.ret == Ret::FromDeps { "&'d D" } else if spec.ret == Ret::FromElidedArg { "&'x D" } else { "&D" };
         let send = if want_send { "    is_send(&fut);\n" } else { "" };
-        let ps_src = ps_src.replace(", a: &str", ", a: &'a str");
+        let mut ps_src = ps_src.replace(", a: &str", ", a: &'a str");
+        // (the witness is no `async fn`: it has to name what the fn may leave anonymous)
+        if ps_src.contains(ANON_ITER) {
+            ps_src = ps_src.replace(ANON_ITER, "impl Iterator<Item = &'w str> + Send");
+            g.insert(g.len() - 1, "'w".into());
+        }
         format!(
             "fn witness<{}>(d: {recv}{ps_src}) {{\n    let fut = d.{method}({arg_names});\n    let _: PhantomData<{}> = out(&fut);\n{send}}}\n",
             g.join(", "),
@@ -318,7 +327,14 @@ pub fn gen_cases(t: &mut Tape) -> Vec<Case> {
     // `?Send` is meaningless together with async_trait (async_trait has its own `?Send` argument)
     let no_send = !matches!(kind, Kind::TraitDynAsyncTrait | Kind::ImplBlockDyn) && t.chance(1, 3);
     let arg_tys: Vec<&'static str> = (0..4).map(|_| *t.pick(&["i32", "u8", "bool", "String"])).collect();
-    let spec = Spec { arg_tys, kind, ret, no_send, n_args: t.range(1, 4), concrete, at_spelling: t.choose(4), no_deps, dflt: kind == Kind::TraitStatic && t.chance(1, 3) };
+    let mut arg_tys = arg_tys;
+    let mut n_args = t.range(1, 4);
+    let anon_iter = matches!(kind, Kind::Fn | Kind::Mod) && !matches!(ret, Ret::FromElidedArg | Ret::FromDeps) && t.chance(1, 3);
+    if anon_iter {
+        arg_tys[1] = ANON_ITER;
+        n_args = n_args.max(2);
+    }
+    let spec = Spec { arg_tys, kind, ret, no_send, n_args, concrete, at_spelling: t.choose(4), no_deps, dflt: kind == Kind::TraitStatic && t.chance(1, 3) };
     let mut classes: Vec<&'static str> = vec![match kind {
         Kind::Fn => "fn",
         Kind::Mod => "mod",
@@ -337,6 +353,9 @@ pub fn gen_cases(t: &mut Tape) -> Vec<Case> {
     });
     if no_deps {
         classes.push("no_deps");
+    }
+    if anon_iter {
+        classes.push("anonymous_lifetime_in_an_argument_position_impl_trait");
     }
     if spec.dflt {
         classes.push("defaulted_async_methods(unused_argument_with_destructor,unsized_coercion)");
